@@ -598,6 +598,8 @@ err_t bign96Sign(octet sig[34], const bign_params* params,
 	if (params->l != 96)
 		return ERR_BAD_PARAMS;
 	// проверить oid_der
+	if (oid_len != SIZE_MAX && !memIsValid(oid_der, oid_len))
+		return ERR_BAD_INPUT;
 	if (oid_len == SIZE_MAX || oidFromDER(0, oid_der, oid_len) == SIZE_MAX)
 		return ERR_BAD_OID;
 	// проверить rng
@@ -710,6 +712,8 @@ err_t bign96Sign2(octet sig[34], const bign_params* params,
 	if (params->l != 96)
 		return ERR_BAD_PARAMS;
 	// проверить oid_der
+	if (oid_len != SIZE_MAX && !memIsValid(oid_der, oid_len))
+		return ERR_BAD_INPUT;
 	if (oid_len == SIZE_MAX || oidFromDER(0, oid_der, oid_len)  == SIZE_MAX)
 		return ERR_BAD_OID;
 	// проверить t
@@ -838,6 +842,8 @@ err_t bign96Verify(const bign_params* params, const octet oid_der[],
 	if (params->l != 96)
 		return ERR_BAD_PARAMS;
 	// проверить oid_der
+	if (oid_len != SIZE_MAX && !memIsValid(oid_der, oid_len))
+		return ERR_BAD_INPUT;
 	if (oid_len == SIZE_MAX || oidFromDER(0, oid_der, oid_len)  == SIZE_MAX)
 		return ERR_BAD_OID;
 	// создать состояние
